@@ -1,4 +1,4 @@
-(* regenerated on every run by harness/cmd/translate (acqroster) from core/task/manager.go acquireTasks:
+(* regenerated on every run by harness/cmd/translate (acqroster) from core/task Manager.acquireTasks:
    the newly launched tasks are written to the roster whether or not the deployment succeeded *)
 Definition acq_roster_unconditional : bool := true.
 (* ... and so are, inside the loop over the deployment attempts, the tasks of an attempt that is retried *)
